@@ -20,7 +20,8 @@
    fired set is non-empty; the excuse is reported under the fired names.
 
    The state machine builds the input: a format (or echo word list) from fragments,
-   then an argument list.  Which fragments are offered is selected by Family:
+   then an argument list.  Which fragments are offered is selected by the family, which
+   Init picks from the constant Families:
      "dir"    one conversion specification  % flags* width? precision? conv  + 0..1 argument
      "reuse"  up to MaxUnits short units (literals, escapes, plain directives) + 0..MaxArgs arguments
      "esc"    one text of escape fragments, evaluated as format, as %b argument and by echo -e
@@ -28,19 +29,22 @@
      "mix"    all format fragments + arguments from all menus (used with -simulate)        *)
 EXTENDS Integers, Sequences, FiniteSets, TLC, Json, ShText
 
-CONSTANTS Family,     \* "dir" | "reuse" | "esc" | "echo" | "mix"
-          MaxUnits,   \* bound on format units / fragments / echo words
-          MaxFlags,   \* bound on the number of flag characters in a directive
-          MaxTail,    \* bound on the digits that follow a numeric escape head (\0 \1 \x \u ...)
-          MaxArgs,    \* bound on the argument list
+CONSTANTS Families,   \* subset of {"dir", "reuse", "esc", "echo", "mix"}
+          MaxFlags,   \* dir, mix: bound on the number of flag characters in a directive
+          MaxTail,    \* esc, mix: bound on the digits that follow a numeric escape head (\0 \1 \x \u ...)
+          ReuseUnits, ReuseArgs,   \* reuse: bounds on format units and arguments,
+          ReuseSum,                \*        and on their sum
+          EchoMaxWords,            \* echo: bound on the word list
+          MixUnits, MixArgs,       \* mix: bounds on format units and arguments
           Rich        \* TRUE: the larger fragment menus
 
 \* ======================================================================
 \* Characters, bytes, numbers
 
-Bytes(c) == IF c = "eacute" THEN <<195, 169>> ELSE <<Ord(c)>>
+BytesTab == [c \in AsciiSet \cup {"eacute"} |-> IF c = "eacute" THEN <<195, 169>> ELSE <<OrdFn[c]>>]
+Bytes(c) == BytesTab[c]
 UnitsOf(t) == Flatten([k \in 1..Len(t) |-> Bytes(t[k])])        \* the bytes of a text
-CharCode(c) == Ord(c)                                           \* code point ("eacute" = 233)
+CharCode(c) == IF c = "eacute" THEN 233 ELSE OrdFn[c]                                           \* code point ("eacute" = 233)
 
 OctChars == {"0","1","2","3","4","5","6","7"}
 DecChars == OctChars \cup {"8","9"}
@@ -128,11 +132,11 @@ OctD(t, i, dia) ==
   IN IF d.u = c.u /\ d.nx = c.nx THEN d ELSE [d EXCEPT !.fired = {name}]
 
 \* \xH[H], \uH[HHH], \UH[HHHHHHH]
-HexEsc(t, i) ==
+HexEsc(t, i, dev) ==
   LET c == t[i + 1]
       n == IF c = "x" THEN 2 ELSE IF c = "u" THEN 4 ELSE 8
       e == RunEnd(t, i + 2, HexChars, n)
-  IN IF e = i + 2 THEN ER(BS, i + 1, {})            \* no digit: not an escape
+  IN IF e = i + 2 THEN (IF dev THEN ER(BS \o Bytes(c), i + 2, {}) ELSE ER(BS, i + 1, {}))   \* no digit: not an escape
      ELSE IF e - (i + 2) = 8 /\ DigitVal[t[i + 2]] > 7 THEN [ER(<<>>, e, {}) EXCEPT !.ok = FALSE]
      ELSE LET v == NumVal(t, i + 2, e - 1, 16) IN
           IF c = "x" THEN ER(<<v>>, e, {})
@@ -150,13 +154,15 @@ Esc(t, i, dia, dev) ==
        ELSE ER(BS \o Bytes(c), i + 2, {})
     ELSE IF c = "c" /\ dia # "fmt" THEN
        \* \c: produce no further output
-       IF dev THEN ER(BS, i + 1, {"BackslashCNotHonoured"})            \* Dev: unknown escape
+       IF dev THEN ER(BS \o Bytes(c), i + 2, {"BackslashCNotHonoured"}) \* Dev: unknown escape
        ELSE [ER(<<>>, i + 2, {}) EXCEPT !.stop = TRUE]
     ELSE IF c \in OctChars THEN (IF dev THEN OctD(t, i, dia) ELSE OctC(t, i, dia))
-    ELSE IF c \in {"x", "u", "U"} THEN HexEsc(t, i)
+    ELSE IF c \in {"x", "u", "U"} THEN HexEsc(t, i, dev)
     ELSE \* not an escape: the backslash is output, the next character is ordinary text
          \* (in a format, `\%d` is a backslash followed by the directive %d)
-         IF dev /\ dia = "fmt" /\ c = "%" THEN ER(BS \o Bytes(c), i + 2, {"UnknownEscapeSwallowsPercent"})
+         \* Dev: backslash and character are both copied (this only matters before a "%" in a
+         \* format, and inside an open directive, see DirD)
+         IF dev THEN ER(BS \o Bytes(c), i + 2, IF dia = "fmt" /\ c = "%" THEN {"UnknownEscapeSwallowsPercent"} ELSE {})
          ELSE ER(BS, i + 1, {})
 
 \* ======================================================================
@@ -311,12 +317,21 @@ DirC(t, i, rest) ==
   ELSE [Fatal(d, rest, {}) EXCEPT !.ok = d.conv \notin OtherConvChars]
 
 \* Deviations of expand.go formatInto: "+", "-", " " are accepted only directly after the "%";
-\* "#", ".", "X" are rejected ("invalid format char"); a "%" after modifiers prints a percent sign.
+\* "#", ".", "X" are rejected ("invalid format char"); a "%" after modifiers prints a percent sign;
+\* a backslash escape inside an open directive is expanded and written on the spot and the directive
+\* goes on after it (`%\n5d` = newline, then %5d) where bash reports an invalid format character.
+RECURSIVE DirD(_, _, _)
 DirD(t, i, rest) ==
   LET d == ParseDir(t, i)
       badflag == {k \in 1..Len(d.flags) : d.flags[k] = "#" \/ (k >= 2 /\ d.flags[k] # "0")}
       firstbad == CHOOSE k \in badflag : \A j \in badflag : k <= j
   IN IF d.conv = "%" /\ d.nx = i + 2 THEN DR("ok", Bytes("%"), d.nx, rest, FALSE, {})
+     ELSE IF d.conv = "\\" THEN
+          LET pe == d.nx - 1
+              e  == Esc(t, pe, "fmt", TRUE)
+              r  == DirD(SubSeq(t, 1, pe - 1) \o SubSeq(t, e.nx, Len(t)), i, rest)    \* the directive without the escape
+          IN [r EXCEPT !.u = e.u \o @, !.nx = @ + (e.nx - pe), !.ok = @ /\ e.ok,
+                       !.fired = @ \cup e.fired \cup {"EscapeInsideDirective"}]
      ELSE IF badflag # {} THEN
           Fatal(d, rest, IF d.conv \in ConvChars
                          THEN {IF d.flags[firstbad] = "#" THEN "HashFlagRejected" ELSE "FlagOrderRejected"} ELSE {})
@@ -427,19 +442,23 @@ Echo(ws, dev) ==
 \* ======================================================================
 \* The input builder
 
-VARIABLES fmt,     \* the format text (or, for "esc", the text under test)
+VARIABLES Family,  \* the family this behaviour builds an input of
+          fmt,     \* the format text (or, for "esc", the text under test)
           cat,     \* grammar category of the last fragment: "lit" "pct" "flag" "width" "prec" "num" "args"
           units,   \* number of units / fragments so far
           nflags,  \* flags in the open directive / digits after the last numeric escape head
           conv,    \* conversion character of the last complete directive ("" if none)
           words    \* argument list (for "echo": all words)
-vars == <<fmt, cat, units, nflags, conv, words>>
+vars == <<Family, fmt, cat, units, nflags, conv, words>>
+MaxUnits == CASE Family = "dir" -> 1 [] Family = "reuse" -> ReuseUnits [] Family = "esc" -> 2
+              [] Family = "echo" -> EchoMaxWords [] Family = "mix" -> MixUnits
+MaxArgs  == CASE Family = "dir" -> 1 [] Family = "reuse" -> ReuseArgs [] Family = "mix" -> MixArgs [] OTHER -> 0
 
 \* --- menus (texts)
 T1(a) == <<a>>
 Flags  == IF Rich THEN {"-", "0", "+", " ", "#"} ELSE {"-", "0", "+", " ", "#"}
-Widths == IF Rich THEN {<<"5">>, <<"1">>, <<"1","0">>} ELSE {<<"5">>}
-Precs  == IF Rich THEN {<<".","2">>, <<".">>, <<".","0">>, <<".","5">>} ELSE {<<".","2">>, <<".">>}
+Widths == IF Rich THEN {<<"5">>, <<"1","0">>} ELSE {<<"5">>}
+Precs  == IF Rich THEN {<<".","2">>, <<".">>, <<".","0">>} ELSE {<<".","2">>, <<".">>}
 Convs  == {"s", "b", "c", "d", "i", "u", "o", "x", "X", "%", "y"}
 
 NumArgs == {<<>>, <<"5">>, <<"-","3">>, <<"0","x","1","0">>, <<"0","1","7">>, <<"x">>, <<"3","x">>,
@@ -450,41 +469,41 @@ NumArgs == {<<>>, <<"5">>, <<"-","3">>, <<"0","x","1","0">>, <<"0","1","7">>, <<
                             <<"-","-","3">>, <<"0","x","1","g">>, <<"1","2","3","4","5","6">>, <<"-","1","2","3","4","5","6">>,
                             <<"0","_","7">>, <<"0","x","_","1">>, <<"1","_">>, <<"_","1">>, <<"+">>, <<"-">>}
               ELSE {})
+NumArgsSmall == {<<>>, <<"5">>, <<"-","3">>, <<"0">>, <<"3","x">>, <<"2","5","5">>, <<"0","x","1","0">>}
 StrArgs == {<<>>, <<"a","b","c">>, <<"eacute","a">>, <<"a","b","c","d","e","f","g">>}
         \cup (IF Rich THEN {<<"a">>, <<"eacute">>, <<"%","d">>, <<"a"," ","b">>, <<"a","\\","n">>} ELSE {})
 BArgs   == {<<>>, <<"a","\\","n","b">>, <<"a","\\","c","b">>, <<"\\","0","1","0","1">>, <<"a","b","c","d","e","f","g">>,
             <<"%","d">>}
         \cup (IF Rich THEN {<<"\\","c">>, <<"eacute">>, <<"\\","1","0","1">>, <<"a","\\">>, <<"\\","'">>, <<"\\","x","4","1","\\","c">>} ELSE {})
-\* the argument menu of the property text (DESIGN 7/C24) for the reuse family
-BasicArgs == {<<>>, <<"a","b","c">>, <<"5">>, <<"-","3">>, <<"0","x","1","0">>, <<"0","1","7">>, <<"x">>,
-              <<"3","x">>, <<"a","\\","n","b">>}
-           \cup (IF Rich THEN {<<"a","\\","c","b">>} ELSE {})
+\* the reuse family varies the *number* of arguments (0..4) over a small menu; the other numeric
+\* forms of DESIGN 7/C24 (0x10 017 x ...) are in NumArgs, crossed with every conversion by "dir"
+BasicArgs == {<<>>, <<"a","b","c">>, <<"5">>, <<"3","x">>, <<"a","\\","n","b">>}
 ArgMenu(c) == IF Family \in {"reuse"} THEN BasicArgs
               ELSE IF Family = "mix" THEN BasicArgs \cup NumArgs \cup StrArgs \cup BArgs
               ELSE IF c \in {"s", "c"} THEN StrArgs
               ELSE IF c = "b" THEN BArgs
               ELSE IF c \in {"%", "y", ""} THEN {<<>>, <<"5">>}
-              ELSE NumArgs
+              ELSE IF Len(fmt) = 2 THEN NumArgs          \* plain %d ...: every numeric form
+              ELSE NumArgsSmall                          \* with flags/width/precision: a few values
 
-ReuseUnits == {<<"a">>, <<"\\","n">>, <<"%","s">>, <<"%","d">>, <<"%","c">>, <<"%","b">>, <<"%","%">>, <<"%","y">>, <<"%">>}
-           \cup (IF Rich THEN {<<"%","5","s">>, <<"%","x">>, <<"|">>, <<"%","u">>, <<"\\","c">>, <<"%","5">>} ELSE {})
+ReuseMenu == {<<"a">>, <<"\\","n">>, <<"%","s">>, <<"%","d">>, <<"%","c">>, <<"%","b">>, <<"%","%">>, <<"%","y">>, <<"%">>}
 
 \* escape family: heads (each starts an escape) and the characters that may follow
 EscHeads == { <<"\\", c>> : c \in {"a","b","e","E","f","n","r","t","v","\\","'","\"","?","c","q","%",
                                    "0","1","4","7","8","x","u","U"} }
-EscTail  == IF Rich THEN {"0","1","4","8","e","g"} ELSE {"0","1","8","e"}
-EscLits  == {<<"a">>, <<"\\">>}
+EscTail  == {"0","1","8","e"}
+EscLits  == {<<"a">>, <<"\\">>, <<"%">>}
 
 EchoWords == {<<"-","n">>, <<"-","e">>, <<"-","E">>, <<"-","n","e">>, <<"-","e","E">>, <<"-","E","e">>,
               <<"-","e","x">>, <<"-">>, <<"-","-">>, <<"a">>, <<"a","\\","n","b">>, <<"b","\\","c">>,
-              <<"\\","1","0","1">>, <<"\\","0","1","0","1">>}
+              <<"\\","1","0","1">>, <<"\\","0","1","0","1">>, <<"%","d">>}
            \cup (IF Rich THEN {<<"-","e","n">>, <<"-","n","n">>, <<"-","n","E">>, <<>>, <<"\\","'">>, <<"\\","x","4","1">>} ELSE {})
 
-Init == fmt = <<>> /\ cat = "lit" /\ units = 0 /\ nflags = 0 /\ conv = "" /\ words = <<>>
+Init == Family \in Families /\ fmt = <<>> /\ cat = "lit" /\ units = 0 /\ nflags = 0 /\ conv = "" /\ words = <<>>
 
 InDir == cat \in {"pct", "flag", "width", "prec"}
 Add(frag, c, du) == /\ fmt' = fmt \o frag /\ cat' = c /\ units' = units + du
-                    /\ UNCHANGED words
+                    /\ UNCHANGED <<words, Family>>
 
 \* --- directive grammar:  %  flag*  width?  precision?  conv
 StartDir == /\ cat \in {"lit", "num"} /\ units < MaxUnits
@@ -496,24 +515,25 @@ AddWidth == /\ cat \in {"pct", "flag"} /\ \E w \in Widths : Add(w, "width", 0) /
 AddPrec  == /\ cat \in {"pct", "flag", "width"} /\ \E p \in Precs : Add(p, "prec", 0) /\ UNCHANGED <<nflags, conv>>
 AddConv  == /\ InDir /\ \E c \in Convs : (Add(<<c>>, "lit", 0) /\ conv' = c) /\ UNCHANGED nflags
 \* --- other fragments
-\* (with the small menus only the first escape is followed by digits)
-AddLit(S) == /\ cat \in {"lit", "num"} /\ units < MaxUnits /\ (Rich \/ cat = "lit" \/ nflags = 0)
+\* (in the esc family only the first escape is followed by digits, and nothing follows the digits)
+AddLit(S) == /\ cat \in {"lit", "num"} /\ units < MaxUnits /\ (Family = "mix" \/ cat = "lit" \/ nflags = 0)
              /\ \E l \in S : Add(l, "lit", 1) /\ nflags' = 0 /\ UNCHANGED conv
-AddHead   == /\ cat \in {"lit", "num"} /\ units < MaxUnits /\ (Rich \/ cat = "lit" \/ nflags = 0)
+AddHead   == /\ cat \in {"lit", "num"} /\ units < MaxUnits /\ (Family = "mix" \/ cat = "lit" \/ nflags = 0)
              /\ \E h \in EscHeads : Add(h, IF h[2] \in {"0","1","4","7","8","x","u","U"} THEN "num" ELSE "lit", 1)
              /\ nflags' = 0 /\ UNCHANGED conv
-AddTail   == /\ cat = "num" /\ nflags < MaxTail /\ (Rich \/ units = 1 \/ Family = "mix")
+AddTail   == /\ cat = "num" /\ nflags < MaxTail /\ (units = 1 \/ Family = "mix")
              /\ \E c \in EscTail : Add(<<c>>, "num", 0) /\ nflags' = nflags + 1 /\ UNCHANGED conv
 AddUnit   == /\ cat = "lit" /\ units < MaxUnits
-             /\ \E u \in ReuseUnits :
+             /\ \E u \in ReuseMenu :
                   Add(u, IF u[Len(u)] \in {"%", "5"} /\ u # <<"%","%">> THEN "pct" ELSE "lit", 1)
              /\ UNCHANGED <<nflags, conv>>
 \* --- arguments (after the format is finished; an unfinished directive is a valid test)
 AddArg    == /\ fmt # <<>> /\ Len(words) < MaxArgs
+             /\ (Family = "reuse" => units + Len(words) < ReuseSum)
              /\ \E a \in ArgMenu(IF InDir THEN "" ELSE conv) : words' = Append(words, a)
-             /\ cat' = "args" /\ UNCHANGED <<fmt, units, nflags, conv>>
+             /\ cat' = "args" /\ UNCHANGED <<Family, fmt, units, nflags, conv>>
 AddWord   == /\ Len(words) < MaxUnits /\ \E w \in EchoWords : words' = Append(words, w)
-             /\ UNCHANGED <<fmt, cat, units, nflags, conv>>
+             /\ UNCHANGED <<Family, fmt, cat, units, nflags, conv>>
 
 Next ==
   CASE Family = "dir"   -> (fmt = <<>> /\ StartDir) \/ AddFlag \/ AddWidth \/ AddPrec \/ AddConv
